@@ -16,7 +16,8 @@ Mirrors the code as it is:
   delete map and vice versa), `Commit` checks the flag, applies all sets, then all deletes, and keeps
   the maps; `Cancel` empties them.  `log` is a ghost field: the calls since creation / last Cancel;
 * `flushkv` forwards reads, follows every successful mutation (and batch Commit) by `Flush()` of
-  the wrapped store and returns the first error; `debug` calls its callback and forwards.
+  the wrapped store and returns the first error, except that a Flush refused with ErrStoreClosed after
+  a mutation that took effect is not reported (fix b5d5462); `debug` calls its callback and forwards.
   `WithRealm` / `Batched` of a wrapper wrap the result of the wrapped store the same way.
 
 Core Lean only.
@@ -116,13 +117,16 @@ def vRead (f : Store → Out) : List Wrap → Store → Out
   | _ :: ws, s => vRead f ws s
 
 /-- A mutating method through a wrapper stack: `debug` forwards, `flushkv` returns the error of the
-wrapped call or else the result of `Flush()`. -/
+wrapped call or else the result of `Flush()` — except ErrStoreClosed from that Flush (repaired code). -/
 def vMut (f : Store → Store × Out) : List Wrap → Store → Store × Out
   | [], s => f s
   | .debug :: ws, s => vMut f ws s
   | .flush :: ws, s =>
     match vMut f ws s with
-    | (s', .ok) => (s', vFlush ws s')
+    | (s', .ok) =>
+      -- `flushAfterMutation`: a Flush refused because the store was closed meanwhile is not an error of the
+      -- mutation, which has taken effect; every other answer of Flush is returned
+      (s', match vFlush ws s' with | .closed => .ok | o => o)
     | r => r
 
 /-! ## one request -/
